@@ -55,31 +55,39 @@ def accessOk (m : Machine) (w : Width) (a : Word) : Bool :=
 def targetOk (p : Asm.Program) (t : Word) : Bool :=
   t.toNat % 4 == 0 && t.toNat ≤ 4 * p.instrs.size
 
-/-- `step`: `.inl stop` ends the run, `.inr (pc', m', ev)` continues. -/
+/-- the access check of a load / store before it executes -/
+def memCheck (m : Machine) (i : Instr) : Option String :=
+  match i with
+  | .load w _ base off => if accessOk m w (rd0 m.rf base + off) then none else some "load out of range or unaligned"
+  | .store w _ base off => if accessOk m w (rd0 m.rf base + off) then none else some "store out of range or unaligned"
+  | _ => none
+
+/-- the bytes a load reads -/
+def loadBytes (m : Machine) (i : Instr) : List Byte :=
+  (loadAddrs i m.rf).map (fun a => m.mem.getD a.toNat 0)
+
+def nextPc (pc : Word) (o : Outcome) : Word :=
+  match o.next with
+  | some t => t
+  | none => pc + 4
+
+/-- one instruction: `.inl stop` ends the run, `.inr (pc', m', ev)` continues -/
+def stepInstr (p : Asm.Program) (pc : Word) (m : Machine) (i : Instr) : Stop ⊕ (Word × Machine × Event) :=
+  match memCheck m i with
+  | some why => .inl (.notWf why)
+  | none =>
+    match exec i pc m.rf p.label (loadBytes m i) with
+    | .error e => .inl (.error e)
+    | .ok o =>
+      if o.ret then .inl .ret
+      else if !targetOk p (nextPc pc o) then .inl (.notWf "control transfer outside the program or unaligned")
+      else .inr (nextPc pc o, applyOutcome m o, { pc := pc, loads := loadAddrs i m.rf, stores := o.mem.map (·.1) })
+
+/-- `step`: fetch the instruction at `pc`; running past the last instruction ends the run -/
 def step (p : Asm.Program) (pc : Word) (m : Machine) : Stop ⊕ (Word × Machine × Event) :=
   match p.instrs[pc.toNat / 4]? with
   | none => .inl .offEnd
-  | some i =>
-    let rf := m.rf
-    let la := loadAddrs i rf
-    let memOk : Option String := match i with
-      | .load w _ base off => if accessOk m w (rd0 rf base + off) then none else some "load out of range or unaligned"
-      | .store w _ base off => if accessOk m w (rd0 rf base + off) then none else some "store out of range or unaligned"
-      | _ => none
-    match memOk with
-    | some why => .inl (.notWf why)
-    | none =>
-      let bytes := la.map (fun a => m.mem.getD a.toNat 0)
-      match exec i pc rf p.label bytes with
-      | .error e => .inl (.error e)
-      | .ok o =>
-        if o.ret then .inl .ret
-        else
-          let pc' := match o.next with
-            | some t => t
-            | none => pc + 4
-          if !targetOk p pc' then .inl (.notWf "control transfer outside the program or unaligned")
-          else .inr (pc', applyOutcome m o, { pc := pc, loads := la, stores := o.mem.map (·.1) })
+  | some i => stepInstr p pc m i
 
 def run (p : Asm.Program) (m : Machine) (fuel : Nat) : Result :=
   if p.instrs.size ≥ 250 then { stop := .notWf "250 instructions or more", final := m, steps := 0, trace := #[] }
